@@ -499,7 +499,12 @@ class Sandbox:
         self.feedback = runtime_error_function(exception=self.exception, context=[context],
                                                traceback=traceback, location=traceback.line_number,
                                                report=self.report, priority=priority)
-        self.exception.feedback = self.feedback
+        try:
+            self.exception.feedback = self.feedback
+        except Exception:
+            # Not every exception object accepts new attributes (a frozen
+            # dataclass, __slots__, a __setattr__ of its own)
+            pass
         return False
 
     def clear_exception(self):
